@@ -101,7 +101,10 @@ pub fn probe_in_child(entry: &str, state: &str, input: &[u8], tag: &str) -> Stri
     let dir = std::env::current_exe().ok().and_then(|p| p.parent().map(|d| d.to_path_buf())).unwrap_or_default();
     let file = dir.join(format!("probe_{}_{tag}.txt", std::process::id()));
     std::fs::write(&file, format!("{state}\n{}\n", hex::encode(input))).expect("write probe file");
-    let mut child = std::process::Command::new(std::env::current_exe().unwrap()).arg("--probe").arg(entry).arg(&file)
+    // the probe runs the build of this harness in which the library is NOT optimised (target/unopt), if it has been built
+    let exe = { let me = std::env::current_exe().unwrap(); let un = me.parent().and_then(|d| d.parent()).map(|t| t.join("unopt").join(me.file_name().unwrap()));
+        match un { Some(u) if u.exists() => u, _ => me } };
+    let mut child = std::process::Command::new(exe).arg("--probe").arg(entry).arg(&file)
         .stdout(std::process::Stdio::null()).stderr(std::process::Stdio::null()).spawn().expect("spawn probe");
     let t = std::time::Instant::now();
     let res = loop {
